@@ -34,7 +34,7 @@ macro_rules! viol {
 /// Violation attributed to the op's class property and the further properties covering it.
 #[macro_export]
 macro_rules! viol_op {
-    ($code:expr, $($a:tt)*) => { return Err($crate::mon::Viol { extra: Vec::new(), prop: $crate::mon::class_prop($code), more: $crate::mon::class_more($code), msg: format!($($a)*) }) };
+    ($code:expr, $($a:tt)*) => { return Err($crate::mon::Viol { extra: Vec::new(), prop: $crate::mon::class_prop($code), more: $crate::mon::contents_more($code), msg: format!($($a)*) }) };
 }
 
 /// A rule that does not affect the map/model agreement: fatal for the history only when it is
@@ -825,7 +825,7 @@ impl<K: El, V: El> Mon<K, V> {
 
         // ---- contents (C01 & co) ----
         if self.nops % self.check_every == 0 {
-            self.full_check(class_prop(op.code), class_more(op.code), &enc())?;
+            self.full_check(class_prop(op.code), contents_more(op.code), &enc())?;
         }
         Ok(())
     }
@@ -934,6 +934,17 @@ pub fn cursor_more(c: Code) -> &'static [&'static str] {
         "C11" => &["C11"],
         "C13" => &["C13"],
         _ => &[],
+    }
+}
+
+/// Wrong contents / wrong len / an undocumented panic after *any* call are also C01's business:
+/// its quantifier ranges over all histories of the public map API, and the very next lookup
+/// would observe the damage.
+pub fn contents_more(c: Code) -> &'static [&'static str] {
+    match class_prop(c) {
+        "C01" => &[],
+        "C13" => &[],
+        _ => &["C01"],
     }
 }
 
